@@ -47,6 +47,23 @@ def biased_schedules(rnd, n):
     return out
 
 
+def timeout_schedules(rnd, n):
+    """Server::timeout x graceful shutdown x streaming calls: the request timeout (300 ms) bounds the handler future only, so a
+    response stream that is still being produced long after the signal (wait steps of 1 s) must run to completion."""
+    out = []
+    for s in biased_schedules(rnd, n * 2):
+        if any(st['op'] == 'fire' for st in s['steps']) and len(out) < n:
+            for c in s['calls']:
+                c['items'] = max(1, c['items'])            # streaming calls only: their handlers answer at once
+            steps = []
+            for st in s['steps']:
+                steps.append(st)
+                if st['op'] == 'fire' or (st['op'] == 'release' and rnd.random() < 0.3):
+                    steps.append({'op': 'wait', 'c': 0, 'k': 0, 'ms': 1000})
+            out.append(dict(s, steps=steps, timeout_ms=300, **{'class': 'timeout_and_shutdown'}))
+    return out
+
+
 def mech_validate(verdict, cov, ev, tag, label):
     """Mechanism-level binding: the runs driven by TLC-exported schedules (fixed topology of MC_Shutdown.cfg), with the hook
     events tonic emitted, must be behaviours of Shutdown.tla itself (Trace_ShutdownMech).  Shortfall = DRIFT."""
@@ -122,6 +139,7 @@ def check(prop, tier, seed):
     if len(stims) < 20:
         raise ToolError('too few schedules exported')
     stims += biased_schedules(rnd, 2000 if tier == 'thorough' else 300)
+    stims += timeout_schedules(rnd, 600 if tier == 'thorough' else 100)
     ev, path = simple.run_lab('shutdown', stims, tag, 'schedules')
     simple.validate(prop, 'Trace_Shutdown', verdict, ev, path, 'schedules', cov, clause_filter=lambda c: c.startswith('C13.') or c in ('NoPanic', 'NoHang'))
     mech_validate(verdict, cov, ev, tag, 'schedules')
